@@ -640,7 +640,9 @@ def csName : Conn.CS → String
 def checkConn (toks : List String) : String :=
   match toks with
   | [lg, script] =>
-    let legacy := lg == "1"
+    -- `lg`: bit 0 = pre-D10 disconnect condition, bit 1 = pre-D19 connecting condition
+    let legacy := lg == "1" || lg == "3"
+    let strict := lg == "2" || lg == "3"
     let rec go (s : Conn.Server) (c : Conn.Client) (n : Nat) : List String → String
       | [] => "ok"
       | t :: rest =>
@@ -651,7 +653,7 @@ def checkConn (toks : List String) : String :=
         | ["cr"] => go s c.remove (n + 1) rest
         | ["k1"] => go s (c.setConnected true) (n + 1) rest
         | ["k0"] => go s (c.setConnected false) (n + 1) rest
-        | ["f"] => go s.frame (c.frame legacy) (n + 1) rest
+        | ["f"] => go s.frame (c.frame legacy strict) (n + 1) rest
         | ["x", ss, cs] =>
           let ms := if s.state then "Connected" else "Disconnected"
           if ms == ss && csName c.state == cs then go s c (n + 1) rest
